@@ -76,9 +76,12 @@ RUNS_PROGRAM_OPTIONS = (
 
 def _runs_other_program(tokens: list[str]) -> str | None:
     for t in tokens[1:]:
-        for opt in RUNS_PROGRAM_OPTIONS:
-            if t == opt or t.startswith(opt + "="):
-                return opt
+        # Long options may be abbreviated to any unambiguous prefix (--use-compress-prog=...)
+        name = t.split("=", 1)[0]
+        if name.startswith("--") and len(name) > 2 and name != "--checkpoint":
+            for opt in RUNS_PROGRAM_OPTIONS:
+                if opt.startswith(name):
+                    return opt
         if t.startswith("-") and not t.startswith("--") and ("I" in t or "F" in t):
             # -I PROG (--use-compress-program), -F SCRIPT (--info-script)
             return t
